@@ -35,13 +35,35 @@ def _cfg_variants(rng, fmt):
     return v
 
 
+def _add_sibling_radials(rng, glyphs):
+    """two shapes in one glyph whose radial gradients agree in circle, stops and spread and
+    differ only in a non-uniform gradientTransform (the part of the transform that cannot be
+    folded into the circle): each must keep its own gradient definition"""
+    g = rng.choice(glyphs)
+    x, y, w, h = g.viewbox
+    m = min(w, h)
+    c = (x + 0.4 * w, y + 0.4 * h)
+    r = 0.3 * m
+    k = rng.choice([0.5, 0.4, 0.6])
+    stops = e2e._stops(rng)
+    spread = rng.choice(["pad", "reflect"])
+    for gt in ((1, 0, 0, k, 0, y * (1 - k)), (k, 0, 0, 1, x * (1 - k), 0)):
+        cx, cy = gt[0] * c[0] + gt[4], gt[3] * c[1] + gt[5]
+        hx, hy = 0.8 * r * gt[0], 0.8 * r * gt[3]
+        pts = [(round(cx - hx), round(cy - hy)), (round(cx + hx), round(cy - hy)), (round(cx + hx), round(cy + hy)), (round(cx - hx), round(cy + hy))]
+        g.items.append(e2e.Shape(pts, e2e.Radial(c, r, c, list(stops), "userSpaceOnUse", gt, spread), 1.0))
+
+
 def _gen_colr1(rng):
     over_ = _cfg_variants(rng, "glyf_colr_1")
     if rng.random() < 0.25:
         over_["clipbox_quantization"] = rng.choice([1, 7, 64])
     if rng.random() < 0.2:
         over_["reuse_tolerance"] = -1
-    return {"glyphs": e2e.gen_glyphset(rng), "overrides": over_}
+    glyphs = e2e.gen_glyphset(rng)
+    if rng.random() < 0.15:
+        _add_sibling_radials(rng, glyphs)
+    return {"glyphs": glyphs, "overrides": over_}
 
 
 def _build(glyphs, overrides):
@@ -227,6 +249,8 @@ def _gen_otsvg(rng):
     if rng.random() < 0.2:
         over_["reuse_tolerance"] = -1
     glyphs = e2e.gen_glyphset(rng)
+    if rng.random() < 0.25:
+        _add_sibling_radials(rng, glyphs)
     if rng.random() < 0.35:
         # glyph names that are prefixes of one another (a sequence and its leading
         # codepoint), in either input order
@@ -415,6 +439,110 @@ class e2e_colr_to_svg:
     n_thorough = 400
     ensures = {
         "svg-renders-what-the-paint-graph-renders": lambda glyphs, result: _colr_to_svg_mismatch(glyphs, result) == [],
+    }
+
+
+def _gen_colr_glyph_refs(rng):
+    """solid-filled COLRv1 glyphs; the last one is then re-pointed at another colour glyph
+    through transform paints (a third-party-style paint graph: PaintColrGlyph under
+    PaintTranslate / PaintScale / PaintRotate, also inside a layer list)"""
+    over_ = _cfg_variants(rng, "glyf_colr_1")
+    glyphs = e2e.gen_glyphset(rng, n_glyphs=rng.randint(2, 3), gradients=rng.random() < 0.4, groups=False, reuse=False)
+    kinds = [rng.choice(["translate", "scale", "rotate", "scale-around", "translate-translate"]) for _ in range(rng.randint(1, 2))]
+    params = [(rng.choice([-120, 60, 200]), rng.choice([-80, 40, 150]), rng.choice([0.5, 0.75, 1.5]), rng.choice([0.5, 1.25]), rng.choice([30, 90, -45])) for _ in kinds]
+    return {"glyphs": glyphs, "overrides": over_, "refs": {"kinds": kinds, "params": params, "in_layers": rng.random() < 0.5}}
+
+
+def _build_with_refs(glyphs, overrides, refs):
+    from fontTools.ttLib.tables import otTables as ot
+
+    r = _build(glyphs, overrides)
+    font = r["font"]
+    F = ot.PaintFormat
+
+    def P(fmt, **kw):
+        p = ot.Paint()
+        p.Format = int(fmt)
+        for k, v in kw.items():
+            setattr(p, k, v)
+        return p
+
+    target, donor = _name(glyphs[-1]), _name(glyphs[0])
+    paint = P(F.PaintColrGlyph, Glyph=donor)
+    for kind, (dx, dy, sx, sy, ang) in zip(refs["kinds"], refs["params"]):
+        if kind == "translate":
+            paint = P(F.PaintTranslate, dx=dx, dy=dy, Paint=paint)
+        elif kind == "scale":
+            paint = P(F.PaintScale, scaleX=sx, scaleY=sy, Paint=paint)
+        elif kind == "rotate":
+            paint = P(F.PaintRotate, angle=ang / 180, Paint=paint)
+        elif kind == "scale-around":
+            paint = P(F.PaintScaleAroundCenter, scaleX=sx, scaleY=sy, centerX=dx, centerY=dy, Paint=paint)
+        else:
+            paint = P(F.PaintTranslate, dx=dy, dy=dx, Paint=P(F.PaintTranslate, dx=dx, dy=dy, Paint=paint))
+    table = font["COLR"].table
+    rec = [x for x in table.BaseGlyphList.BaseGlyphPaintRecord if x.BaseGlyph == target][0]
+    if refs["in_layers"] and table.LayerList is not None:
+        # [ reference, then the glyph's own former paint ] as a new layer run
+        first = len(table.LayerList.Paint)
+        table.LayerList.Paint.extend([paint, rec.Paint])
+        table.LayerList.LayerCount = len(table.LayerList.Paint)
+        paint = P(F.PaintColrLayers, FirstLayerIndex=first, NumLayers=2)
+    rec.Paint = paint
+    if getattr(table, "ClipList", None) and target in table.ClipList.clips:
+        del table.ClipList.clips[target]
+    r["target"] = target
+    return r
+
+
+def _colr_glyph_ref_mismatch(glyphs, result):
+    from nanoemoji import colr_to_svg
+    from picosvg.geometric_types import Rect
+
+    font, cfg, name = result["font"], result["cfg"], result["target"]
+    ev = e2e.ColrEval(font)
+    vb = Rect(0, 0, 120, 100)
+    svgs = colr_to_svg.colr_to_svg(lambda gn: vb, font, rounding_ndigits=4)
+    if name not in svgs:
+        return [(name, "no svg generated")]
+    root = svgs[name].svg_root
+    adv = font["hmtx"][name][0]
+    to_vb = e2e.inv(e2e.placement(tuple(vb), cfg.ascender, cfg.descender, adv))
+    sv = e2e.SvgEval(root)
+    bad = []
+    n = 13
+    lo_x, hi_x = -0.3 * adv, 1.3 * adv
+    d = 6.0
+    for i in range(n):
+        for j in range(n):
+            q = (lo_x + (hi_x - lo_x) * (i + 0.5) / n, cfg.descender + (cfg.ascender - cfg.descender) * (j + 0.5) / n)
+            want = ev.glyph_color(name, q)
+            if want is None:
+                continue
+            # only where the paint graph is locally constant (away from outline edges);
+            # gradients are compared through their solid-equivalent tolerance below
+            near = [ev.glyph_color(name, (q[0] + ddx, q[1] + ddy)) for ddx, ddy in ((d, 0), (-d, 0), (0, d), (0, -d), (d, d), (-d, -d), (d, -d), (-d, d))]
+            if any(w is None or not e2e.color_close(want, w, tol_rgb=6, tol_a=0.03) for w in near):
+                continue
+            got = sv.color(root, e2e.ap(to_vb, q))
+            if got is None:
+                continue
+            if isinstance(got, str) or not e2e.color_close(want, got, tol_rgb=12, tol_a=0.05):
+                bad.append((name, tuple(round(v, 1) for v in q), want, got))
+    return bad
+
+
+@contract("nanoemoji.colr_to_svg.colr_to_svg", props=["C13"])
+class e2e_colr_to_svg_colr_glyph_refs:
+    bounded_only = True
+    gen = _gen_colr_glyph_refs
+    native_call = _build_with_refs
+    n_quick = 25
+    n_thorough = 300
+    ensures = {
+        # a colour-glyph reference under transform paints is drawn through those transforms
+        # exactly once
+        "referenced-glyph-drawn-through-its-transforms": lambda glyphs, result: _colr_glyph_ref_mismatch(glyphs, result) == [],
     }
 
 
